@@ -77,6 +77,8 @@ class Task:
                        and k not in ns})
         except ImportError:
             pass
+        import py_ballisticcalc as _pkg
+        ns['py_ballisticcalc'] = _pkg
         self.ip = Interp(self.ctx, self.index, cs, ns)
         self.ip.active_contract = c
         self.ip.prune_forks = bool(getattr(c, 'prune', False))
@@ -394,15 +396,61 @@ def has_quantifier(f):
     return False
 
 
+def _cli_first(task, timeout_ms, threads=12):
+    """heavy tasks: every obligation is dumped to SMT-LIB and given to the z3 4.8.12 CLI, 'threads' at a time;
+    'unsat' is conclusive, anything else is decided afterwards by the in-process solver (which also provides
+    the counter-model)"""
+    from concurrent.futures import ThreadPoolExecutor
+    from .solve import run_cli
+    import time as _time
+    ctx = task.ctx
+    base = list(ctx.assumptions) + list(ctx.axioms)
+    jobs = []
+    for o in ctx.obls:
+        if o.kind == 'cover' or o.goal is None:
+            continue
+        sv = z3.Solver()
+        hyps = base + list(o.hyps)
+        if getattr(o, 'qf_only', False):
+            hyps = [h for h in hyps if not has_quantifier(h)]
+        for h in hyps:
+            sv.add(h)
+        sv.add(z3.Not(o.goal))
+        jobs.append((o, sv.to_smt2()))
+    tmo = min(timeout_ms, 12000)
+
+    def run(job):
+        o, smt = job
+        t0 = _time.time()
+        r = run_cli(['/usr/bin/z3', f'-T:{max(2, int(tmo / 1000))}'], smt, tmo)
+        return o, r, _time.time() - t0
+    with ThreadPoolExecutor(threads) as ex:
+        for o, r, secs in ex.map(run, jobs):
+            if r == 'unsat':
+                o.result, o.time, o.backend, o.model = 'unsat', secs, 'z3-4.8.12-cli', None
+
+
 def discharge(task: Task, timeout_ms=20000, keep_smt=0):
     ctx = task.ctx
     base = list(ctx.assumptions) + list(ctx.axioms)
+    if getattr(task.c, 'heavy', False):
+        _cli_first(task, timeout_ms)
     for o in ctx.obls:
+        if o.result == 'unsat' and o.backend == 'z3-4.8.12-cli':
+            continue
         if o.kind == 'cover':
             # satisfiability check: quantified hypotheses are dropped (a weaker set); 'sat' is then
             # confirmed by a native witness (crosscheck), 'unsat' of the weaker set is definitive
             hyps = [h for h in base + list(o.hyps) if not has_quantifier(h)]
             res, secs, backend, model, smt2 = check(hyps, None, min(timeout_ms, 5000), expect='sat', use_cvc5=False,
+                                                    tactics=False)
+        elif getattr(task.c, 'heavy', False):
+            # heavy task, not closed by the parallel CLI pass: one short in-process attempt (it provides the
+            # counter-model when there is one); anything else stays 'unknown'
+            hyps = base + list(o.hyps)
+            if getattr(o, 'qf_only', False):
+                hyps = [h for h in hyps if not has_quantifier(h)]
+            res, secs, backend, model, smt2 = check(hyps, o.goal, min(timeout_ms, 6000), expect=o.expect, use_cvc5=False,
                                                     tactics=False)
         else:
             hyps = base + list(o.hyps)
